@@ -69,6 +69,18 @@ SHADOW = [  # a quantified variable with the name of a parameter (the parameter 
 ]
 
 
+NUMERAL_FIRST = [  # a numeral as the first operand of a comparison / arithmetic node, the renamed term second
+    ("(and (<= 1 (g ?x)))", "(and (increase (f) (* 2 (g ?x))))"),
+    ("(and (> 2 (+ (f) (g ?y))))", "(and (assign (g ?x) (- 10 (g ?y))))"),
+    ("(and (or (r) (< 0.5 (h ?x ?y))))", "(and (when (<= 1 (g ?y)) (decrease (h ?x ?y) (/ 1 (g ?y)))))"),
+]
+TWO_BOUND = [  # two quantified effects / conditions with differently named variables
+    ("(and)", "(and (forall (?z - t1) (when (q ?x ?z) (p ?z))) (forall (?w - t1) (when (q ?w ?y) (not (q ?w ?y)))))"),
+    ("(and (forall (?z - t1) (or (p ?z) (q ?z ?x))) (forall (?w - t2) (and (not (q ?y ?w)))))",
+     "(and (forall (?w - t1) (when (p ?w) (q ?y ?w))) (forall (?z - t2) (when (not (p ?z)) (q ?x ?z))))"),
+]
+
+
 def renamings(params):
     fresh = ["?u", "?v", "?k"]
     out = [("identity", {p: p for p in params}), ("fresh", {p: f for p, f in zip(params, fresh)})]
@@ -88,6 +100,9 @@ def renamings(params):
     out.append(("onto-bound-name", {**{p: p for p in params}, params[0]: "?z"}))
     if len(params) >= 2:
         out.append(("chain-through-bound-name", {params[0]: "?z", params[1]: params[0], **{p: p for p in params[2:]}}))
+        if "?w" not in params and "?z" not in params:
+            out.append(("onto-two-bound-names", {params[0]: "?z", params[1]: "?w", **{p: p for p in params[2:]}}))
+            out.append(("onto-two-bound-names-crossed", {params[0]: "?w", params[1]: "?z", **{p: p for p in params[2:]}}))
     # the same maps with their entries listed in the opposite order (a map is a map, however it was built)
     for kind, ren in list(out):
         if len(ren) >= 2 and kind in ("fresh", "perm", "chain"):
@@ -117,6 +132,8 @@ def cases(tier):
         progs.append(vdom.program("xy", pre, eff, ["twins"]))
     for pre, eff in SHADOW:
         progs.append(vdom.program("xy", pre, eff, ["shadow-param"]))
+    for pre, eff in NUMERAL_FIRST + TWO_BOUND:
+        progs.append(vdom.program("xy", pre, eff, ["numeral-first" if (pre, eff) in NUMERAL_FIRST else "two-bound"]))
     # parameters named like the variables of the :predicates / :functions declarations (?a ?b): terms spelled exactly as
     # declared, several times in one action
     for pre, eff in AS_DECLARED:
